@@ -220,12 +220,14 @@ def rule_quotation(rep: Report, idx: SourceIndex) -> None:
 	q = m.classes.get('ErrorRender.Quotation')
 	if bq is None or q is None:
 		raise AnalysisError('ErrorRender.__build_quotation / ErrorRender.Quotation vanished')
-	bx = FI(bq)
+	# locals stand for their values, destructuring assignments read element-wise (`begin_line, begin_column = node.source_map['begin']`)
+	from vlib.match import expand_use as _expand_use, split_tuple_assigns as _split
+	bx = _split(bq.node)
 	calls_ = [c_ for c_ in nodes(bx, ast.Call) if unparse(c_.func).endswith('Quotation') and len(c_.args) == 2]
 	if not calls_:
 		r.skip('shift', bq.where, '__build_quotation no longer builds Quotation(filepath, span)')
 	for c_ in calls_:
-		sp = c_.args[1]
+		sp = _expand_use(bx, c_.args[1], 5)
 		if not (isinstance(sp, ast.Tuple) and len(sp.elts) == 4):
 			r.skip('shift', (RENDER, c_.lineno), f'the span handed to Quotation is not a 4-tuple expression: {unparse(sp)[:80]}')
 			continue
